@@ -215,7 +215,7 @@ DET_SOURCES = [
     b"#!/usr/bin/env xgo\nprintln 1\n", b"# sharp comment\nprintln 1 # trailing\n", b"#\nprintln 1\n",
 ]
 
-SMALL_LIMIT_QUICK = 1500
+SMALL_LIMIT_QUICK = 300
 SMALL_LIMIT_THOROUGH = 4000
 
 
